@@ -258,6 +258,10 @@ def check(case, ctx):
     plain = ns["child"].fn if hasattr(ns["child"], "fn") else None
     if get_async_fn(lambda v: v) is not None or get_async_or_sync_fn(len) is not len or is_async_fn(len) or has_async_fn(len) or is_pure_async_fn(len):
         viol.append(("C09.classify:plain", "a plain callable is classified as asynchronous"))
+    for conv, o in (("async_call.asynq(plain).value()", outcome(lambda: async_call.asynq(lambda v, w=2: ["plain", v, w], 5, w=6).value())),
+                    ("async_call(plain)", outcome(lambda: async_call(lambda v, w=2: ["plain", v, w], 5, w=6)))):
+        if o != ["ok", ["plain", 5, 6]]:
+            viol.append(("C09.classify:plain", "%s on a plain callable gives %r, calling it directly gives ['plain', 5, 6]" % (conv, o)))
     wrapped = get_async_fn(lambda v: ["plain", v], wrap_if_none=True)
     if not (is_pure_async_fn(wrapped) and outcome(lambda: wrapped(5).value()) == ["ok", ["plain", 5]]):
         viol.append(("C09.classify:plain", "get_async_fn(plain, wrap_if_none=True) does not return a pure async function of the same result"))
